@@ -38,8 +38,13 @@ type c22Xfer struct {
 type c22Svc struct {
 	ID      uint32    `json:"id"`
 	Plan    []c22Xfer `json:"plan"`
-	Output  bool      `json:"output"`   // halt with a 32-byte output (else empty)
-	MemoGas uint64    `json:"memo_gas"` // minimum memo gas of the account
+	Output  bool      `json:"output"`             // halt with a 32-byte output (else empty)
+	OutSeen bool      `json:"out_seen,omitempty"` // with Output: the output is the first 32 octets of what the service fetched (differs from round to round)
+	MemoGas uint64    `json:"memo_gas"`           // minimum memo gas of the account
+	// AssignTo k > 0: when the service was given something, it calls assign(core 0, queue = the
+	// fetched bytes, new assigner = service k-1): a privilege used in a way that depends on the
+	// inputs and cannot be repeated (it gives the role away)
+	AssignTo int `json:"assign_to,omitempty"`
 }
 
 type c22Result struct {
@@ -61,7 +66,58 @@ type c22Input struct {
 
 const c22AbsentID = 4000000001
 
+// c22GenChain: a several-round shape. One service A is accumulated because of a work result and
+// pays k forwarders; the forwarders (round 2, invoked because of transfers only) each pay a
+// PRIVILEGED service P several times; P (round 3) is in no earlier round. One forwarder may also
+// have a work result of its own, so that it is accumulated in two rounds of the block, and yield
+// what it saw (a different output per round).
+func c22GenChain(rt *rapid.T) c22Input {
+	var in c22Input
+	k := rapid.IntRange(2, 4).Draw(rt, "n_forwarders")
+	ids := rapid.Permutation([]uint32{1, 2, 5, 77, 300, 65536, 70001, 1 << 31, 4000000000}).Draw(rt, "ids")
+	ns := k + 2
+	for i := 0; i < ns; i++ {
+		in.Services = append(in.Services, c22Svc{ID: ids[i], Output: rapid.IntRange(0, 2).Draw(rt, "output") != 0,
+			OutSeen: rapid.Bool().Draw(rt, "out_seen")})
+	}
+	a, p := 0, ns-1
+	for f := 1; f <= k; f++ {
+		for j := rapid.IntRange(1, 2).Draw(rt, "a_pays"); j > 0; j-- {
+			in.Services[a].Plan = append(in.Services[a].Plan, c22Xfer{To: f, Amount: uint64(rapid.IntRange(0, 9).Draw(rt, "amount")), GasL: 3000})
+		}
+		for j := rapid.IntRange(2, 4).Draw(rt, "f_pays"); j > 0; j-- {
+			in.Services[f].Plan = append(in.Services[f].Plan, c22Xfer{To: p, Amount: uint64(rapid.IntRange(0, 9).Draw(rt, "amount")),
+				GasL: rapid.SampledFrom([]uint64{150, 200, 300}).Draw(rt, "gas_l")})
+		}
+	}
+	in.Reports = [][]c22Result{{{Svc: a, Gas: 100000}}}
+	if rapid.Bool().Draw(rt, "forwarder_has_result") {
+		f := rapid.IntRange(1, k).Draw(rt, "which_forwarder")
+		in.Reports[0] = append(in.Reports[0], c22Result{Svc: f, Gas: 50000})
+		in.Services[f].Output = true
+	}
+	in.Slot = rapid.Uint32Range(1, 200).Draw(rt, "slot")
+	in.Bless, in.Designate, in.CreateAcct, in.Assign = -1, -1, -1, -1
+	switch rapid.IntRange(0, 3).Draw(rt, "privilege_of_p") {
+	case 0:
+		in.Bless = p
+	case 1:
+		in.Designate = p
+	case 2:
+		in.CreateAcct = p
+	default:
+		in.Assign = p
+		if rapid.IntRange(0, 3).Draw(rt, "p_hands_over") != 0 {
+			in.Services[p].AssignTo = a + 1
+		}
+	}
+	return in
+}
+
 func c22Gen(rt *rapid.T) c22Input {
+	if rapid.IntRange(0, 3).Draw(rt, "chain_shape") == 0 {
+		return c22GenChain(rt)
+	}
 	var in c22Input
 	ns := rapid.IntRange(3, 6).Draw(rt, "n_services")
 	ids := rapid.Permutation([]uint32{1, 2, 5, 77, 300, 65536, 70001, 1 << 31, 4000000000}).Draw(rt, "ids")
@@ -222,6 +278,12 @@ func c22ServiceCode(in *c22Input, idx int) []byte {
 	a.loadImm64(8, 2)
 	a.loadImm64(9, c22Buf)
 	a.ecalli(4)
+	if svc.AssignTo > 0 && svc.AssignTo <= len(in.Services) {
+		a.loadImm64(7, 0)
+		a.loadImm64(8, c22Buf)
+		a.loadImm64(9, uint64(in.Services[svc.AssignTo-1].ID))
+		a.ecalli(15)
+	}
 	a.emit(1) // fallthrough: the next instruction starts a basic block (branch target)
 	target := len(a.code)
 	binary.LittleEndian.PutUint32(a.code[brAt+6:], uint32(int32(target-brAt)))
@@ -239,6 +301,9 @@ func c22ServiceCode(in *c22Input, idx int) []byte {
 	}
 	out := blake2b.Sum256([]byte(fmt.Sprintf("output of service %d", svc.ID)))
 	outAddr := put(out[:])
+	if svc.OutSeen {
+		outAddr = c22Buf
+	}
 	a.loadImm64(7, outAddr)
 	if svc.Output {
 		a.loadImm64(8, 32)
